@@ -1064,3 +1064,47 @@ func instrReaches(a, b ssa.Instruction) bool {
 	}
 	return false
 }
+
+// c20SetsFromTheGraph: the names Analyze files in its accounting sets (targeted,
+// missing, empty, ...) come from the graph: node names and branch targets.  A
+// key that derives from another field of the Spec (ActionErrorNode, ErrorNode,
+// a name, ...) puts spec-level metadata among the branch targets.
+func c20SetsFromTheGraph(c *Ctx, rule string, fns []*ssa.Function) {
+	n := 0
+	var bad []string
+	for _, f := range fns {
+		ssau.Instrs(f, func(in ssa.Instruction) {
+			mu, ok := in.(*ssa.MapUpdate)
+			if !ok {
+				return
+			}
+			mt, isM := mu.Map.Type().Underlying().(*types.Map)
+			if !isM {
+				return
+			}
+			if b, isB := mt.Key().Underlying().(*types.Basic); !isB || b.Kind() != types.String {
+				return
+			}
+			n++
+			for _, d := range deepDefs(mu.Key, fns) {
+				ld, isLd := d.(*ssa.UnOp)
+				if !isLd {
+					continue
+				}
+				fa, isFA := ld.X.(*ssa.FieldAddr)
+				if !isFA {
+					continue
+				}
+				named, fld, _, isF := ssau.FieldOf(fa)
+				if isF && named != nil && named.Obj().Name() == "Spec" && named.Obj().Pkg() != nil && named.Obj().Pkg().Path() == prog.Abs("core") && fld != "Nodes" {
+					bad = append(bad, fmt.Sprintf("Spec.%s is filed in a set (%s)", fld, c.pos(in)))
+				}
+			}
+		})
+	}
+	if n == 0 {
+		c.R.Break(rule + ": Analyze files nothing in a set")
+		return
+	}
+	c.R.Check(len(bad) == 0, rule, "Analyze: what is filed in the accounting sets comes from nodes and branches", "tools/analysis.go", fmt.Sprintf("%d stores into sets of names; no key derives from a field of Spec other than Nodes", n), strings.Join(bad, "; ")+": a name that no branch targets is reported among the branch targets (an orphan disappears, a missing target appears)")
+}
